@@ -89,8 +89,26 @@ TraceCase ==
      \* drift
      /\ Drift(HasBad(doc) \/ e.whole = Render(doc, fs, mw, 1), "whole_output")
      /\ Drift(HasBad(doc) \/ e.chunked = mcs, "chunked_output")
+\* lex {doc, toks = [[t, n, raw]], held}: the real tokenizer on a whole document vs the specification's Scan
+\* (token TYPES, tag names and raw texts; classes (C16): token_sequence_differs)
+TokType(t) == CASE t = "stag" -> "StartTag" [] t = "etag" -> "EndTag" [] t = "sc" -> "SelfClosingTag" [] t = "comment" -> "Comment" [] OTHER -> "Text"
+RECURSIVE MergeText(_,_)
+\* adjacent text tokens of the model (an inserted value next to text) are one token for the tokenizer
+MergeText(ts, i) == IF i > Len(ts) THEN <<>>
+                    ELSE IF i < Len(ts) /\ ts[i].t = "text" /\ ts[i + 1].t = "text"
+                         THEN MergeText([k \in 1..(Len(ts) - 1) |-> IF k < i THEN ts[k] ELSE IF k = i THEN [t |-> "text", n |-> "", us |-> ts[i].us \o ts[i + 1].us] ELSE ts[k + 1]], i)
+                         ELSE <<ts[i]>> \o MergeText(ts, i + 1)
+TraceLex ==
+  /\ IsEvent("lex")
+  /\ LET e == TraceLog[l] doc == e.doc
+         sc == Scan(doc, AllUnits(doc), 1)
+         want == MergeText(sc.toks, 1)
+     IN /\ Judge(HasBad(doc) \/ (Len(e.toks) = Len(want) /\ \A k \in 1..Len(want) :
+                    /\ e.toks[k].t = TokType(want[k].t) /\ e.toks[k].raw = Render(doc, <<>>, want[k].us, 1)
+                    /\ (want[k].t \in {"stag", "etag", "sc"} => e.toks[k].n = want[k].n)), "token_sequence_differs")
+        /\ Judge(HasBad(doc) \/ e.held = Render(doc, <<>>, sc.held, 1), "token_sequence_differs")
 TracePanic == IsEvent("panic") /\ Report("VERDICT", "panic")
-TraceNext == TraceCase \/ TracePanic
+TraceNext == TraceCase \/ TraceLex \/ TracePanic
 TraceSpec == l = 1 /\ [][TraceNext]_l
 Accepted == LET d == TLCGet("stats").diameter IN
             IF d - 1 = Len(TraceLog) THEN PrintT(<<"ACCEPTED", Len(TraceLog)>>)
